@@ -375,14 +375,18 @@ def selftest_determinism(n):
 
 
 def setup():
-    import compileall
-
     ok = runner.preload()
     say("jaqalpaq tree: %s ; pristine zygote: %s" % (seams.REPO_SRC, ok))
     import numpy, sly  # noqa
 
-    if not compileall.compile_dir(HERE, quiet=1, legacy=False, optimize=0, workers=1, force=False, ddir=None) and False:
+    if not ok:
+        say("HARNESS: importlib.util is already loaded in the zygote; a missing import of it in the library could not be observed")
         return 2
+    # every module of the harness must at least compile
+    for fn in sorted(os.listdir(HERE)):
+        if fn.endswith(".py"):
+            with open(os.path.join(HERE, fn)) as f:
+                compile(f.read(), fn, "exec")
     return selftest_determinism(2)
 
 
